@@ -42,6 +42,15 @@ func c19RecKey(epoch uint64, chain, addr string) string {
 	return fmt.Sprintf("%d %s %s", epoch, chain, addr)
 }
 
+func (st *c19State) jailKeys() []string {
+	ks := make([]string, 0, len(st.jails))
+	for k := range st.jails {
+		ks = append(ks, k)
+	}
+	sort.Strings(ks)
+	return ks
+}
+
 func (st *c19State) takeSnap() {
 	s := st.s
 	sn := &c19Snap{height: s.Height(), entries: map[string]epochstoragetypes.StakeEntry{}, compl: map[string]uint64{}, serv: map[string]uint64{}}
@@ -453,7 +462,20 @@ func runC19(r *simrt.Run) {
 		st.victims = append(st.victims, s.Providers[i])
 	}
 	s.AfterBlock = append(s.AfterBlock, st.afterBlock)
-	s.AfterTx = append(s.AfterTx, func(w *World, tx *TxResult) { st.maybeSnap() })
+	s.AfterTx = append(s.AfterTx, func(w *World, tx *TxResult) {
+		if tx.Err == nil && tx.Name == "unstake" {
+			// a removed stake entry ends the jail history of that entry: staking again creates a new one
+			for _, k := range st.jailKeys() {
+				parts := strings.SplitN(k, " ", 2)
+				if _, found := w.K.Epochstorage.GetStakeEntryCurrent(w.Ctx, parts[0], parts[1]); !found {
+					delete(st.jails, k)
+					delete(st.unfrozeAt, k)
+					w.R.Probe("c19_jailed_provider_unstaked")
+				}
+			}
+		}
+		st.maybeSnap()
+	})
 	// warm-up: every provider on the first chain, subscriptions, then enough epochs of history
 	for _, p := range s.Providers {
 		r.Step()
@@ -487,6 +509,5 @@ func init() {
 	simrt.Register("C19", &simrt.PropSpec{Fn: runC19, NonTrivial: c19NonTrivial,
 		Rule: "tape-generated histories with 3..8 providers on one chain (plans pairing 2..5), 1..3 'victim' providers, relay payments carrying consumer-signed UnresponsiveProviders lists (1-2 reported providers, CU steered to 4x-2..4x+2 of the victim's serviced CU in that epoch, late claims for the previous epoch), servicing claims by the victims, voluntary freeze/unfreeze, stake/unstake, and epoch progress with downtime gaps and hour-scale clock jumps; the chain's stake entries, complaint and serviced-CU records are snapshotted just before each epoch-start block and each newly jailed provider is judged against them over the window of the exported constants. Non-trivial = >=3 recorded complaints and >=1 automatic jailing",
 		Real: chainReal, Stubbed: chainStub,
-		Assume: append([]string{"'newly jailed' = JailEndTime changed to a future time across an epoch-start BeginBlock", "window = EPOCHS_NUM_TO_CHECK_FOR_COMPLAINERS / EPOCHS_NUM_TO_CHECK_CU_FOR_UNRESPONSIVE_PROVIDER epochs counted back from RecommendedEpochNumToCollectPayment epochs before the epoch start; serviced CU is summed over ALL epochs of that window", "stake history is judged only for entries without earlier jails (a soft jail itself rewrites StakeAppliedBlock)", "escalation is judged one way only: more than SOFT_JAILS automatic jailings of one entry within 24h of block time => the last one is frozen with JailEndTime >= now+HARD_JAIL_TIME"}, chainAssume...)})
-	_ = strings.Join
+		Assume: append([]string{"'newly jailed' = JailEndTime changed to a future time across an epoch-start BeginBlock", "window = EPOCHS_NUM_TO_CHECK_FOR_COMPLAINERS / EPOCHS_NUM_TO_CHECK_CU_FOR_UNRESPONSIVE_PROVIDER epochs counted back from RecommendedEpochNumToCollectPayment epochs before the epoch start; serviced CU is summed over ALL epochs of that window", "stake history is judged only for entries without earlier jails (a soft jail itself rewrites StakeAppliedBlock)", "escalation is judged one way only: more than SOFT_JAILS automatic jailings of one stake entry (an unstake ends the entry and its history) within 24h of block time => the last one is frozen with JailEndTime >= now+HARD_JAIL_TIME"}, chainAssume...)})
 }
